@@ -971,7 +971,8 @@ static void unique_add_to_mapping (mapping_t * m1, mapping_t * m2, int free_flag
 }
 
 void absorb_mapping (mapping_t * m1, mapping_t * m2) {
-  if (m2->count)
+  /* m += m changes nothing, and assigning every value onto itself would release it first */
+  if (m2->count && m1 != m2)
     add_to_mapping (m1, m2, 0);
 }
 
